@@ -8,8 +8,13 @@ package parsigex
 //@ pure ParSigEx.verifyFunc ParSigEx.gaterFunc core.DutyFromProto core.ParSignedDataSetFromProto core.VerifyEth2SignedData
 //@ pure pbv1.ParSigExMsg.GetDuty pbv1.ParSigExMsg.GetDataSet
 
+// The handler runs in a stream goroutine without recover: no nil dereference, index or assertion failure on any
+// decoded message (C14; third-party methods called on decoded values are assumed not to panic on what the decoders
+// accept, with the exceptions recorded as findings).
 //@ func (m *ParSigEx) handle
-//@ props C10 C01
+//@ props C10 C01 C14
+//@ nopanic
+//@ safe nil
 //@ callreq sub: a2 == duty && duty == core.DutyFromProto(pb.GetDuty()) && m.gaterFunc(duty)
 //@ callreq sub: a3 == set && res(1, core.ParSignedDataSetFromProto(duty.Type, pb.GetDataSet())) == nil && set == res(0, core.ParSignedDataSetFromProto(duty.Type, pb.GetDataSet()))
 //@ callreq sub: forallk(pk, set, m.verifyFunc(ctx, sender, duty, pk, set[pk]) == nil)
